@@ -6,13 +6,15 @@ use nom::{
         one_of,
     },
     combinator::{all_consuming, cut, map, map_opt, map_res, not, opt, recognize},
-    error::{context, convert_error, ContextError, FromExternalError, ParseError, VerboseError},
+    error::{
+        context, convert_error, ContextError, ErrorKind, FromExternalError, ParseError, VerboseError,
+    },
     multi::{many0, many1, separated_list0},
     sequence::{delimited, pair, preceded, separated_pair, terminated, tuple as nom_tuple},
     IResult, Parser,
 };
 use nom_locate::LocatedSpan;
-use std::{fmt, num::ParseIntError, sync::Arc};
+use std::{cell::Cell, fmt, num::ParseIntError, sync::Arc};
 
 mod string;
 mod template;
@@ -191,6 +193,85 @@ rule!(blank(i), no_ctx, {
     recognize(many0(alt((multispace1, eol_comment, inline_comment))))(i)
 });
 
+// The parser, the type checker, the evaluator and the destructor of Value all recurse once per nesting level of the
+// expression, so the nesting an expression may have is bounded here, where it is still only text:
+// * NEST_BUDGET bounds the recursion of the parser itself. A bracketed construct descends through every precedence level
+//   and costs far more stack than an if / let / ?: / prefix operator, hence the different prices.
+// * MAX_DEPTH bounds the depth of the tree that chains of binary and postfix operators build without recursion.
+const NEST_BUDGET: usize = 160;
+const NEST_BRACKET: usize = 8;
+const NEST_KEYWORD: usize = 1;
+const MAX_DEPTH: usize = 256;
+
+thread_local!(static NEST_USED: Cell<usize> = Cell::new(0));
+
+struct Nest(usize);
+impl Nest {
+    fn enter(cost: usize) -> Option<Nest> {
+        NEST_USED.with(|used| match used.get().checked_add(cost) {
+            Some(total) if total <= NEST_BUDGET => {
+                used.set(total);
+                Some(Nest(cost))
+            }
+            _ => None,
+        })
+    }
+}
+impl Drop for Nest {
+    fn drop(&mut self) {
+        NEST_USED.with(|used| used.set(used.get().saturating_sub(self.0)));
+    }
+}
+
+// run a parser that recurses into the expression grammar, failing (not backtracking) when the text is nested too deeply
+fn nested<'a, O, E, F>(cost: usize, mut f: F) -> impl FnMut(Span<'a>) -> IResult<Span<'a>, O, E>
+where
+    E: ParseError<Span<'a>>,
+    F: Parser<Span<'a>, O, E>,
+{
+    move |i| match Nest::enter(cost) {
+        Some(_held) => f.parse(i),
+        None => Err(nom::Err::Failure(E::from_error_kind(i, ErrorKind::TooLarge))),
+    }
+}
+
+// depth of a value tree, computed without recursion
+fn depth(v: &Value) -> usize {
+    let mut max = 0;
+    let mut todo = vec![(v, 1usize)];
+    while let Some((v, d)) = todo.pop() {
+        max = max.max(d);
+        match v {
+            Value::Array(a) | Value::Tuple(a) => todo.extend(a.iter().map(|x| (x, d.saturating_add(1)))),
+            Value::OpCall(c) => todo.extend(c.children().map(|x| (x, d.saturating_add(1)))),
+            _ => {}
+        }
+    }
+    max
+}
+
+// left fold of an operator chain that gives up when the tree would become deeper than MAX_DEPTH
+fn fold_limited<T>(
+    first: Value,
+    rest: Vec<T>,
+    depth_of: impl Fn(&T) -> usize,
+    mut f: impl FnMut(Value, T) -> Value,
+) -> Option<Value> {
+    if rest.is_empty() {
+        return Some(first);
+    }
+    let mut d = depth(&first);
+    let mut acc = first;
+    for x in rest {
+        d = d.max(depth_of(&x)).saturating_add(1);
+        if d > MAX_DEPTH {
+            return None;
+        }
+        acc = f(acc, x);
+    }
+    Some(acc)
+}
+
 // a keyword that starts an expression (`if`, `let`): it must not be the beginning of a longer identifier,
 // otherwise `iffy(x)` is first parsed as `if fy(x) ...` and, failing that, parsed again as a call
 fn keyword<'a, E>(kw: &'static str) -> impl FnMut(Span<'a>) -> IResult<Span<'a>, Span<'a>, E>
@@ -282,7 +363,7 @@ rule!(array -> Value, {
         separated_list0(ws(char(',')), op_0),
         opt(ws(char(',')))
     );
-    map(delimited(char('['), cut(body),ws(char(']'))), Into::into)
+    map(nested(NEST_BRACKET, delimited(char('['), cut(body),ws(char(']')))), Into::into)
 });
 
 // `( e )` is a grouping, `()`, `( e, )` and `( e1, e2 .. )` are tuples; parsed by one rule so that the
@@ -292,7 +373,7 @@ rule!(tuple -> Value, {
         separated_list0(ws(char(',')), op_0),
         opt(ws(char(',')))
     );
-    map_opt(delimited(char('('), body, ws(char(')'))), |(mut ary, trailing)| {
+    map_opt(nested(NEST_BRACKET, delimited(char('('), body, ws(char(')')))), |(mut ary, trailing)| {
         if ary.is_empty() && trailing.is_some() {
             None
         } else if ary.len() == 1 && trailing.is_none() {
@@ -322,7 +403,7 @@ rule!(op_value -> Value, {
 
 rule!(op_index -> (Span<'a>,Vec<Value>), {
     map(
-        delimited(tag("["), op_0, ws(char(']'))),
+        nested(NEST_BRACKET, delimited(tag("["), op_0, ws(char(']')))),
         |idx| (Span::new("index"), vec![idx])
     )
 });
@@ -336,17 +417,17 @@ rule!(op_access -> (Span<'a>,Vec<Value>), {
 
 rule!(op_call -> (Span<'a>,Vec<Value>), {
     map(
-        delimited(
+        nested(NEST_BRACKET, delimited(
             char('('),
             separated_list0(ws(char(',')), op_0),
             ws(char(')'))
-        ),
+        )),
         |args|(Span::new("call"),args)
     )
 });
 
 rule!(op_8(i) -> Value, {
-    map(
+    map_opt(
         nom_tuple((
             op_value,
             many0(alt((
@@ -357,18 +438,20 @@ rule!(op_8(i) -> Value, {
         )) ,
     |(p1, expr)| {
         // println!("p1={:?} expr={:?}", p1, expr);
-        expr.into_iter().fold(p1, |p1, val| {
-            let (op, mut args) : (Span,Vec<Value>) = val;
-            args.insert(0,p1);
-            parse_many(op, args)
-        })
+        fold_limited(p1, expr,
+            |(_, args)| args.iter().map(depth).max().unwrap_or(0),
+            |p1, val| {
+                let (op, mut args) : (Span,Vec<Value>) = val;
+                args.insert(0,p1);
+                parse_many(op, args)
+            })
     })
 });
 
 //unary opreator
 rule!(op_7(i) -> Value, {
     alt((
-        map(nom_tuple((alt((tag("!"), tag("~"), tag("-"))), op_7)),
+        map(nom_tuple((alt((tag("!"), tag("~"), tag("-"))), nested(NEST_KEYWORD, op_7))),
             |(op,p1)|parse1(op, p1)
         ),
         op_8
@@ -378,7 +461,7 @@ rule!(op_7(i) -> Value, {
 macro_rules! op_rule {
     ($name:ident, $next:ident, $tags:expr ) => {
         rule!($name(i) -> Value, {
-            map(
+            map_opt(
                 nom_tuple((
                     $next,
                     many0(nom_tuple((
@@ -387,7 +470,7 @@ macro_rules! op_rule {
                     )))
                 )),
                 |(p1, expr)|
-                    expr.into_iter().fold(p1, |p1, val| {
+                    fold_limited(p1, expr, |(_, p2)| depth(p2), |p1, val| {
                         let (op, p2) = val;
                         parse2(op, p1, p2).into()
                     })
@@ -418,11 +501,11 @@ op_rule!(op_1, op_1_5, alt((tag("||"), tag_no_case("or"))));
 
 rule!(op_if(i) -> Value, {
     map(
-        nom_tuple((
+        nested(NEST_KEYWORD, nom_tuple((
             preceded(keyword("if"),op_0),
             preceded(ws(tag("then")),op_0),
             preceded(ws(tag("else")),op_0),
-        )) ,
+        ))) ,
         |(cond, yes, no)| {
             If::make_call(cond, yes, no).into()
         }
@@ -434,10 +517,10 @@ rule!(op_cond(i) -> Value, {
     map(
         pair(
             op_1,
-            opt(pair(
+            opt(nested(NEST_KEYWORD, pair(
                 preceded(ws(tag("?")),op_0),
                 preceded(ws(tag(":")),op_0),
-            ))
+            )))
         ),
         |(cond, tail)| match tail {
             Some((yes, no)) => If::make_call(cond, yes, no).into(),
@@ -455,7 +538,7 @@ rule!(op_assign -> Value, {
 
 rule!(op_let -> Value, {
     map(
-        nom_tuple((
+        nested(NEST_KEYWORD, nom_tuple((
             preceded(keyword("let"),
                 terminated(
                     separated_list0(ws(char(';')), op_assign),
@@ -463,7 +546,7 @@ rule!(op_let -> Value, {
                 )
             ),
             preceded(ws(tag("in")),op_0),
-        )),
+        ))),
         |(vars,expr)| Scope::make_call(vars.into(),expr).into()
     )
 });
